@@ -936,6 +936,11 @@ func netTransfer(mk func(r *RunCtx) netCfg) func(r *RunCtx) {
 			nr.installSubs()
 		}
 		r.S.SetPreemptions(r.Intn(4))
+		if cfg.subs || cfg.stopMid || r.Intn(4) == 0 {
+			// some runs leave freshly started library goroutines waiting for a while (a goroutine the OS scheduler does not
+			// get to): always in the subscriber and stop strata, in a quarter of all other two-node runs
+			r.S.SpawnDelayDen, r.S.SpawnDelayMax = 4+r.Intn(12), 20+r.Intn(400)
+		}
 		for _, x := range nr.xs {
 			x := x
 			r.Op("A", fmt.Sprintf("Open#%d", x.idx), func() { nr.open(x) })
